@@ -277,7 +277,36 @@ def semantic_mutants(mat):
     out.append(("RSA", "pkcs1-public", "rsa-e-zero", DerSequence([int(rsa.n), 0]).encode()))
     out.append(("RSA", "pkcs8", "rsa-inner-key-empty", PKCS8.wrap(b"", RSA.oid)))
     out.append(("RSA", "pkcs8", "rsa-inner-key-not-der", PKCS8.wrap(b"\x01\x02\x03", RSA.oid)))
+    # RFC 5915 ECPrivateKey (P-256) with degenerate optional members, built by hand: [0] parameters and [1] publicKey
+    d32 = (12345).to_bytes(32, "big")
+    oid256 = DerObjectId("1.2.840.10045.3.1.7").encode()
+    pub = ECC.construct(curve="p256", d=12345).public_key().export_key(format="SEC1")
+
+    def ctx(n, content):
+        return bytes([0xA0 | n, len(content)]) + content
+
+    def ecpriv(*tail, version=1, priv=None):
+        return DerSequence([version, DerOctetString(d32 if priv is None else priv).encode()] + list(tail)).encode()
+    bits = lambda b: bytes([3, len(b) + 1, 0]) + b  # noqa: E731
+    ec = [("ec-public-key-empty-bit-string", ecpriv(ctx(0, oid256), ctx(1, bytes([3, 1, 0])))),
+          ("ec-public-key-bit-string-without-octets", ecpriv(ctx(0, oid256), ctx(1, bytes([3, 0])))),
+          ("ec-public-key-one-octet", ecpriv(ctx(0, oid256), ctx(1, bits(b"\x04")))),
+          ("ec-public-key-octet-string", ecpriv(ctx(0, oid256), ctx(1, DerOctetString(pub).encode()))),
+          ("ec-public-key-empty-wrapper", ecpriv(ctx(0, oid256), ctx(1, b""))),
+          ("ec-parameters-empty-wrapper", ecpriv(ctx(0, b""), ctx(1, bits(pub)))),
+          ("ec-parameters-null", ecpriv(ctx(0, DerNull().encode()), ctx(1, bits(pub)))),
+          ("ec-private-key-empty", ecpriv(ctx(0, oid256), ctx(1, bits(pub)), priv=b"")),
+          ("ec-private-key-integer", DerSequence([1, 12345, ctx(0, oid256)]).encode()),
+          ("ec-version-0", ecpriv(ctx(0, oid256), version=0)),
+          ("ec-three-tagged-members", ecpriv(ctx(0, oid256), ctx(1, bits(pub)), ctx(2, DerNull().encode()))),
+          ("ec-valid-control", ecpriv(ctx(0, oid256), ctx(1, bits(pub))))]
+    for cls, der in ec:
+        out.append(("ECC", "rfc5915", cls, der))
+        out.append(("ECC", "pkcs8", cls + "-in-pkcs8", PKCS8.wrap(der, "1.2.840.10045.2.1", key_params=DerObjectId("1.2.840.10045.3.1.7"))))
     return out
+
+
+PEM_LABEL = {"pkcs8": "PRIVATE KEY", "spki": "PUBLIC KEY", "rfc5915": "EC PRIVATE KEY", "pkcs1-private": "RSA PRIVATE KEY", "pkcs1-public": "RSA PUBLIC KEY"}
 
 
 # ------------------------------------------------------------------------------------------------ text-level inputs
@@ -538,6 +567,11 @@ def mutants(inp):
         add(typ + ".import_key", s, PW, **common)
         if fmt == "pkcs8":
             add("PKCS8.unwrap", s, None, **common)
+        # the same structure in PEM armour under the label of its format (the importers branch on the label)
+        if fmt in PEM_LABEL:
+            text = pem_of(s, PEM_LABEL[fmt]).encode()
+            for e in ("RSA.import_key", "DSA.import_key", "ECC.import_key"):
+                add(e, text, None, **dict(common, armour="text", mut=cls + " (PEM)"))
     # ---- PBES containers with well-formed but meaningless parameters
     for cls, s in pbes_mutants(r):
         common = dict(fmt="DSA/pkcs8-pbes", mut=cls, path=[], der=list(s), armour="der", strictable=False)
